@@ -715,6 +715,9 @@ def mod_contract(qual, params_gen, requires=None, max_known=2):
     c = contract(PROP, F, qual)
     c.entry = heap_entry()
     c.timeout_ms = HEAP_TIMEOUT_MS
+    # the universe table is the state this property is about: its contents are
+    # specified by the postconditions over the whole view (symbolic heap), not by the frame
+    c.modifies_globals("exo.core.proc_eqv:_UF_Unv_key")
     use_methods(c)
 
     @c.inputs
